@@ -6,6 +6,7 @@ import (
 
 	//"sort"
 	"strings"
+	"unicode/utf8"
 
 	"google.golang.org/protobuf/types/known/structpb"
 )
@@ -50,6 +51,28 @@ func (vertex *Vertex) HasProperty(key string) bool {
 	return ok
 }
 
+// ValidateIdentifier returns an error if s cannot be stored and read back
+// verbatim as a graph name, element id, label or field name: storage drivers
+// embed these strings in NUL separated keys and in protobuf string fields.
+func ValidateIdentifier(s string) error {
+	if strings.IndexByte(s, 0) >= 0 {
+		return errors.New("cannot contain the NUL character")
+	}
+	if !utf8.ValidString(s) {
+		return errors.New("must be valid UTF-8")
+	}
+	return nil
+}
+
+func validateIdentifiers(fields ...string) error {
+	for i := 0; i+1 < len(fields); i += 2 {
+		if err := ValidateIdentifier(fields[i+1]); err != nil {
+			return fmt.Errorf("'%s' %v", fields[i], err)
+		}
+	}
+	return nil
+}
+
 // Validate returns an error if the vertex is invalid
 func (vertex *Vertex) Validate() error {
 	if vertex.Gid == "" {
@@ -57,6 +80,9 @@ func (vertex *Vertex) Validate() error {
 	}
 	if vertex.Label == "" {
 		return errors.New("'label' cannot be blank")
+	}
+	if err := validateIdentifiers("gid", vertex.Gid, "label", vertex.Label); err != nil {
+		return err
 	}
 	for k := range vertex.GetDataMap() {
 		err := ValidateFieldName(k)
@@ -121,6 +147,9 @@ func (edge *Edge) Validate() error {
 	if edge.To == "" {
 		return errors.New("'to' cannot be blank")
 	}
+	if err := validateIdentifiers("gid", edge.Gid, "label", edge.Label, "from", edge.From, "to", edge.To); err != nil {
+		return err
+	}
 	for k := range edge.GetDataMap() {
 		err := ValidateFieldName(k)
 		if err != nil {
@@ -157,6 +186,9 @@ func ValidateFieldName(k string) error {
 }
 
 func validate(k string) error {
+	if err := ValidateIdentifier(k); err != nil {
+		return err
+	}
 	if strings.ContainsAny(k, `!@#$%^&*()+={}[] :;"',.<>?/\|~`) {
 		return errors.New(`cannot contain: !@#$%^&*()+={}[] :;"',.<>?/\|~`)
 	}
